@@ -18,7 +18,7 @@
                                   packages with no nodes are replaced by the synthetic (_ (package _ name));
                                   order = Model/Loader.v
      Eval glue  vm.go:187-236     pkgs[:len(pkgs)-1], pkgs[len(pkgs)-1:], treeDump, codeDump outside any recover
-     Load glue  vm.go:136-165     loadPackage / loadFile (the top package is read OUTSIDE loadImports' recover),
+     Load glue  vm.go:136-165     loadPackage / loadFile (deferred recoverLoad around reading the top package),
                                   treeDump(all), compilePkgs, codeDump, run, "error in run: unexpected returns"
      treeDump   vm.go:167-176     t.String() (token.go:42: a nil receiver prints "<nil>"), s[3:len(s)-1]
      codeDump   vm.go:178-185     Pos.String -> pos.info (compiler.go:90-99: l.Key(idx)[1:]); instruction.String -> g.Key(operand)
@@ -275,8 +275,10 @@ Definition eval_model (unq : string -> bool) (sys_is_nil : bool) (o : options) (
 (* ---- Load ------------------------------------------------------------------------------------------- *)
 
 (* loadPackage / loadFile: rawLoadPackage or rawLoadFile on the argument (a behaviour: the nodes of
-   joinFiles' / parse's "_" tree, an error, or a panic -- this part is NOT under loadImports' recover),
-   treeSort (a permutation of the top-level nodes), then loadImports *)
+   joinFiles' / parse's "_" tree, an error, or a panic), treeSort (a permutation of the top-level nodes),
+   then loadImports.  Both functions run under `defer recoverLoad(&pkgs, &err)` (load.go:114-139): a panic while
+   the argument package is read (e.g. `*package`: first.Tokens[0] on a bare package token) is returned as an
+   error, which Load prefixes with "error in load: " *)
 Inductive rawtop_beh := TopRet (nodes : list tree) | TopErr | TopPanic.
 
 Record load_adv := mkLoadAdv {
@@ -284,7 +286,7 @@ Record load_adv := mkLoadAdv {
 
 Definition load_model (unq : string -> bool) (sys_is_nil : bool) (topPkg : string) (o : options) (a : load_adv) : outcome :=
   match la_top a with
-  | TopPanic => Escape "loadPackage / loadFile"
+  | TopPanic => Err "error in load: "           (* recovered by recoverLoad *)
   | TopErr => Err "error in load: "
   | TopRet nodes =>
       let top := TNode "_" "_" nodes in
